@@ -113,6 +113,10 @@ func extractRoundMessage(r round.Session, msg *Message) (round.Message, error) {
 }
 
 func (h *TwoPartyHandler) verifyMessage(msg *Message) error {
+	return safely(func() error { return h.doVerifyMessage(msg) })
+}
+
+func (h *TwoPartyHandler) doVerifyMessage(msg *Message) error {
 	if msg == nil {
 		return nil
 	}
